@@ -331,8 +331,7 @@ func (x *Exec) externCall(f *frame, in ssa.Instruction, callee *ssa.Function, c 
 		x.assumed["extern "+name+": any r with 0 <= r < n, no effect on modelled state; panics for n <= 0 (proof obligation at the call)"] = true
 		return Val{T: r}, true
 	case "time.Now":
-		x.assumed["extern time.Now: arbitrary time value"] = true
-		return Val{T: x.havocValue(st, callee.Signature.Results().At(0).Type(), "now")}, true
+		return x.clockValue(st, callee.Signature.Results().At(0).Type(), "time.Now"), true
 	}
 	// resolver.EndpointMap[T] (generic container, opaque to the model): Get/Len read it, Set and
 	// Delete change only the map itself, which no modelled heap component represents
